@@ -60,6 +60,7 @@ type request struct {
 	Spellings []spelling
 	History   []histStep
 	BadFiles  []string // files that must fail to open (any format); fd must return to baseline
+	BadPages  []int    // pages whose content stream cannot be decoded: selections that avoid them are unaffected
 }
 
 type failure struct {
@@ -154,7 +155,22 @@ func work(rq request) response {
 		frags []fragKey
 	}
 	bases := make([]pageBase, rq.NPages+1)
+	badPage := map[int]bool{}
+	for _, p := range rq.BadPages {
+		badPage[p] = true
+	}
 	for i := 1; i <= rq.NPages; i++ {
+		if badPage[i] {
+			// an unreadable page: whatever selecting it gives (an error, a warning and
+			// nothing) is not asserted; it must not disturb selections that avoid it
+			_, _, err := tabula.Open(rq.Path).Pages(i).Text()
+			if err != nil {
+				rp.Counters["unreadable_page_selected_alone_errors"]++
+			} else {
+				rp.Counters["unreadable_page_selected_alone_succeeds"]++
+			}
+			continue
+		}
 		t, _, err := tabula.Open(rq.Path).Pages(i).Text()
 		if err != nil {
 			add("baseline", "Pages(%d).Text() error: %v", i, err)
@@ -193,6 +209,20 @@ func work(rq request) response {
 		doc, _, errD := ex().Document()
 		cc, _, errC := ex().Chunks()
 		rp.Counters["selections_checked"]++
+		touchesBad := false
+		for _, p := range sp.Want {
+			touchesBad = touchesBad || badPage[p]
+		}
+		if touchesBad {
+			rp.Counters["selections_including_an_unreadable_page"]++
+			if l := fdsOf(dir); len(l) != 0 {
+				add("fd-leak", "%s (includes an unreadable page): %d descriptor(s) open after four terminal operations: %v", name, len(l), l)
+			}
+			continue
+		}
+		if len(rq.BadPages) > 0 && sp.Want != nil {
+			rp.Counters["selections_avoiding_an_unreadable_page"]++
+		}
 		if sp.Want == nil {
 			for op, err := range map[string]error{"Text": errT, "Fragments": errF, "Document": errD, "Chunks": errC} {
 				if err == nil {
@@ -401,7 +431,10 @@ func work(rq request) response {
 			}
 			switch st.Op {
 			case "PageCount", "IsMultiColumn", "IsCharacterLevel":
-				if err == nil {
+				// non-terminal: the reader stays with the extractor until Close or a
+				// terminal operation — also when the operation itself failed after the
+				// file had been opened (an unreadable first page)
+				if err == nil || len(rq.BadPages) > 0 {
 					s.open = true
 				}
 			default:
@@ -622,13 +655,51 @@ func Run(c *fw.Ctx) {
 		r := c.Rand("case", i)
 		g := pdfw.GenDoc(r, pdfw.DocOpts{MinPages: 1, MaxPages: 8, MaxLines: 6, MaxFonts: 2, TreeDepth: 1 + r.Intn(3), Inherit: "mixed", NoEmptyPages: true, FontKinds: []string{"t1-winansi", "t1-std", "tt-winansi-tounicode"}})
 		lay := pdfw.RandomLayout(r, 1)
+		damage := i%4 == 3 // one page's content stream is made undecodable
+		if damage {
+			lay.Filter, lay.Forms, lay.Split = "Fl", false, 1
+		}
 		b := pdfw.Build(r.Int63(), lay, []*pdfw.Doc{g.Doc})
 		path := filepath.Join(dir, fmt.Sprintf("c%05d.pdf", i))
-		os.WriteFile(path, b.Bytes, 0o644)
-		defer os.Remove(path)
 		_, toks := g.ExpectedPageText()
 		np := len(toks)
-		rq := request{Path: path, NPages: np, PageToks: toks, Spellings: genSpellings(r, np), History: genHistory(r, np)}
+		var badPages []int
+		if damage && np >= 2 {
+			leaves := g.Doc.Leaves()
+			bp := r.Intn(np) // 0-based leaf index
+			if rg, ok := b.StreamRanges[fmt.Sprintf("page:%d:content:0", leaves[bp].Node.ID)]; ok && rg[1]-rg[0] > 8 {
+				for k := rg[0]; k < rg[1]; k++ {
+					b.Bytes[k] = 0 // not a zlib stream any more; length and offsets unchanged
+				}
+				badPages = []int{bp + 1}
+				c.Seen("fault", "page-content-undecodable")
+			}
+		}
+		os.WriteFile(path, b.Bytes, 0o644)
+		defer os.Remove(path)
+		rq := request{Path: path, NPages: np, PageToks: toks, Spellings: genSpellings(r, np), History: genHistory(r, np), BadPages: badPages}
+		if len(badPages) > 0 {
+			// every way of asking for the readable pages only, with and without header/footer exclusion
+			var good []int
+			for p := 1; p <= np; p++ {
+				if p != badPages[0] {
+					good = append(good, p)
+				}
+			}
+			for _, opt := range []string{"", "ExcludeHF", "ExcludeHeaders", "ExcludeFooters"} {
+				calls := []builderCall{{Kind: "Pages", Args: good}}
+				if opt != "" {
+					calls = append(calls, builderCall{Kind: opt})
+				}
+				rq.Spellings = append(rq.Spellings, spelling{Calls: calls, Want: good, Note: "all-readable-pages " + opt})
+				if len(good) >= 2 {
+					sub := good[len(good)/2:]
+					c2 := append([]builderCall{}, calls...)
+					c2[0] = builderCall{Kind: "Pages", Args: sub}
+					rq.Spellings = append(rq.Spellings, spelling{Calls: c2, Want: sub, Note: "readable-pages-after-the-gap " + opt})
+				}
+			}
+		}
 		for k := 0; k < 3; k++ {
 			var sc siblingCase
 			for j := r.Intn(6); j > 0; j-- { // a chain of single-page calls leaves spare slice capacity
